@@ -538,6 +538,31 @@ func (f *Flow) addCell(k interface{}, a *Abs) {
 	}
 }
 
+// isMemWriterType: *strings.Builder / *bytes.Buffer (or the struct itself).
+func isMemWriterType(t types.Type) bool {
+	if pt, ok := t.Underlying().(*types.Pointer); ok {
+		t = pt.Elem()
+	}
+	switch typeString(t) {
+	case "strings.Builder", "bytes.Buffer":
+		return true
+	}
+	return false
+}
+
+// memWriterKeys: the abstract containers behind an in-memory writer value
+// (possibly boxed into an io.Writer); nil if it is not one.
+func (f *Flow) memWriterKeys(w ssa.Value) []interface{} {
+	var out []interface{}
+	for _, o := range f.p.Origins(w) {
+		if !isMemWriterType(o.Type()) {
+			return nil
+		}
+		out = append(out, f.containerKey(o))
+	}
+	return out
+}
+
 // containerKey: the abstract container an address or aggregate value denotes.
 func (f *Flow) containerKey(v ssa.Value) interface{} {
 	for i := 0; i < 8; i++ {
@@ -990,6 +1015,32 @@ func (f *Flow) call(fn *ssa.Function, b *ssa.BasicBlock, site ssa.CallInstructio
 			f.set(res, top().withNoTaint())
 		}
 		return
+	}
+	// in-memory writers (strings.Builder, bytes.Buffer): what is written into one comes out of its String()
+	if name := calleeName(cc); !cc.IsInvoke() || strings.HasPrefix(name, "(io.") {
+		switch {
+		case strings.HasPrefix(name, "fmt.Fprint") && len(cc.Args) >= 1:
+			for _, k := range f.memWriterKeys(cc.Args[0]) {
+				f.addCell(k, taintOnly(false, args[1:]...))
+			}
+		case (strings.HasPrefix(name, "(*strings.Builder).Write") || strings.HasPrefix(name, "(*bytes.Buffer).Write")) && len(cc.Args) >= 2:
+			for _, k := range f.memWriterKeys(cc.Args[0]) {
+				f.addCell(k, taintOnly(false, args[1:]...))
+			}
+		case name == "io.WriteString" && len(cc.Args) == 2:
+			for _, k := range f.memWriterKeys(cc.Args[0]) {
+				f.addCell(k, taintOnly(false, args[1]))
+			}
+		case name == "(*strings.Builder).String" || name == "(*bytes.Buffer).String" || name == "(*bytes.Buffer).Bytes":
+			if res != nil {
+				acc := top().withNoTaint()
+				for _, k := range f.memWriterKeys(cc.Args[0]) {
+					acc = join(acc, taintOnly(false, f.cell(k)))
+				}
+				f.set(res, acc)
+				return
+			}
+		}
 	}
 	edges := f.p.Callees(site)
 	if pr, ok := cc.Value.(*ssa.Parameter); ok && f.ctxSite != nil && pr.Parent() == fn {
